@@ -52,6 +52,22 @@ def make_cases(seed, n):
     return cases
 
 
+def generated_cases(cases, names):
+    """the same requests addressed to the TRANSLATED functions (module InvGen, tools/tr_cxx.py extended mode): every
+    overload whose generated name starts with inv_/div_/exp_ gets the request of the hand-modelled operation, so the
+    implementation is compared with the generated model (and, again, with the specification)"""
+    out = []
+    for c in cases:
+        toks = c["line"].lstrip("!").split()
+        for nm in names:
+            if nm.startswith(toks[0] + "_") and "_al_" not in nm and "_loop" not in nm:
+                g = dict(c)
+                g["line"] = "!%s %s" % (nm, " ".join(toks[1:]))
+                g["key"] = c["key"] + "/generated:" + nm
+                out.append(g)
+    return out
+
+
 def campaign(res, harness, driver, cases, flavour):
     lines = [c["line"] for c in cases]
     impl = run_parallel(harness, lines)
@@ -84,9 +100,13 @@ def run(tier, seed):
                 "non-trivial = non-canonical operand, zero class, or extreme exponent")
     res.assumptions = ["hand model Model/Inv.lean mirrors goldilocks_base_field.cpp:106-138 and _scalar.hpp:232-252; agreement "
                        "is established on the executed cases only", "exit(-1) is modelled as `none`; the diagnostic text on "
-                       "stderr is not compared"]
+                       "stderr is not compared",
+                       "C10_generated_*: about Gen/InvGen.lean, regenerated from the C++ on every run (fuel-bounded loops; "
+                       "the theorems hold for every fuel >= 129 resp. 64); the generated functions are executed against the "
+                       "code as well (driver fuel 2^40)"]
     st = run_gen()
-    standard_proof_phase(res, MODULE, "C10_", st, ["Scalar"], thorough=(tier == "thorough"))
+    standard_proof_phase(res, MODULE, "C10_", st, ["Scalar", "InvGen"], thorough=(tier == "thorough"))
+    gen_names = (st.get("modules", {}).get("InvGen", {}) or {}).get("names", [])
     drv, err = build_driver()
     if err:
         res.broken.append(("model driver build", err))
@@ -98,5 +118,6 @@ def run(tier, seed):
             res.broken.append(("harness build (%s)" % fl, err))
             continue
         if drv:
-            campaign(res, h, drv, make_cases(seed + len(fl), n), fl)
+            cases = make_cases(seed + len(fl), n)
+            campaign(res, h, drv, cases + generated_cases(cases[:max(600, n // 5)], gen_names), fl)
     return res.finish()
